@@ -1,2 +1,9 @@
+import os
+
+
 def run_all(gen):
-    return
+    repo = os.environ.get("VERIF_REPO", "/repo")
+    from harness.translators import scalar_rules
+    info = scalar_rules.run(repo, gen)
+    print("scalar_rules: %d table entries translated, %d outside the grammar" % (
+        info["translated"], len(info["untranslated"])))
